@@ -383,6 +383,20 @@ func init() {
 					if op.Kind == "addon" && op.Err == "" && op.WasBusted && op.Phase != "mid" {
 						tr.W[op.ID] = 3
 					}
+					// somebody who has left is forgotten at once: if he comes back (same id) he is a newcomer
+					if op.Err == "" && (op.Kind == "leave" || op.Kind == "leavemany" || op.Kind == "update") {
+						present := map[string]bool{}
+						for _, ps := range p.tableNow().State.PlayerStates {
+							present[ps.PlayerID] = true
+						}
+						for id := range tr.W {
+							if !present[id] {
+								delete(tr.W, id)
+								delete(tr.misses, id)
+								delete(tr.stale, id)
+							}
+						}
+					}
 				},
 				OnEvent: func(p *Play, e *h.Ev) {
 					if e.Kind == h.EvReserved && e.PS != nil {
